@@ -3,14 +3,19 @@ package fullstack
 import (
 	"fmt"
 	"math/rand"
+	"sync/atomic"
 	"testing"
+	"time"
 
 	"github.com/ipfs/go-cid"
+
+	"github.com/libp2p/go-libp2p/core/peer"
 
 	"github.com/ipfs/go-graphsync"
 	"github.com/ipfs/go-graphsync/cidset"
 	"github.com/ipfs/go-graphsync/dedupkey"
 	"github.com/ipfs/go-graphsync/donotsendfirstblocks"
+	gsmsg "github.com/ipfs/go-graphsync/message"
 
 	"verif/harness/fab"
 	"verif/harness/ref"
@@ -194,6 +199,11 @@ func TestC03(t *testing.T) {
 			continue
 		}
 		mode := []string{"single", "single", "sequential", "overlap"}[r.Intn(4)]
+		if p.Sub == "aftercancel" {
+			// request 1 is cancelled by its requestor while paused / while running; whatever is requested
+			// afterwards (same id or a new one, same scope) must be served in full again
+			mode = "after-cancel"
+		}
 		ext1 := genC03Ext(r, c, len(rr.Loads))
 		ext2 := genC03Ext(r, c, len(rr.Loads))
 		if mode == "overlap" && r.Intn(2) == 0 {
@@ -226,8 +236,13 @@ func TestC03(t *testing.T) {
 			}
 		}
 		var ignoredByOther map[cid.Cid]bool
+		reuseID := graphsync.RequestID{}
+		useReuse := false
 		runOne := func(x c03ext, already map[cid.Cid]bool, exact bool, tag string) bool {
 			id := graphsync.NewRequestID()
+			if useReuse {
+				id = reuseID
+			}
 			_ = RawSend(R, B.ID, NewReq(id, c.DAG.Root, c.Sel, x.exts()...))
 			got, inc := AwaitTerminal(w, R, B.ID, id)
 			if inc != "" {
@@ -249,6 +264,81 @@ func TestC03(t *testing.T) {
 					runOne(ext2, nil, true, "request-2 (after request-1 finished, must be served in full again)")
 				}
 			}
+		case "after-cancel":
+			nReads := len(rr.Loads)
+			if nReads < 2 || rr.RootMissing {
+				runOne(ext1, nil, true, "request-1")
+				break
+			}
+			state := []string{"paused", "running"}[r.Intn(2)]
+			k := 1 + r.Intn(nReads-1)
+			ext2.Key = ext1.Key
+			id1 := graphsync.NewRequestID()
+			release := make(chan struct{})
+			entered := make(chan struct{}, 1)
+			var pausedOnce int32
+			if state == "paused" {
+				B.OnOutgoingBlock = func(pp peer.ID, rq graphsync.RequestData, b graphsync.BlockData, a graphsync.OutgoingBlockHookActions) {
+					if rq.ID() == id1 && b.Index() >= int64(k) && atomic.CompareAndSwapInt32(&pausedOnce, 0, 1) {
+						a.PauseResponse()
+					}
+				}
+			} else {
+				sb.BeforeRead = func(n int, lnk cid.Cid, path string) error {
+					if n == k {
+						sb.HeldAdd(1)
+						entered <- struct{}{}
+						<-release
+						sb.HeldAdd(-1)
+					}
+					return nil
+				}
+			}
+			_ = RawSend(R, B.ID, NewReq(id1, c.DAG.Root, c.Sel, ext1.exts()...))
+			if state == "running" {
+				<-entered
+			}
+			if ok, why := w.Quiesce(); !ok {
+				rep.Inconclusive("case %d after-cancel: %s", ci, why)
+				if state == "running" {
+					close(release)
+				}
+				break
+			}
+			st1 := B.Impl.PeerState(R.ID).IncomingState.RequestStates[id1].String()
+			_ = RawSend(R, B.ID, gsmsg.NewCancelRequest(id1))
+			if ok, why := w.Quiesce(); !ok {
+				rep.Inconclusive("case %d after-cancel: %s", ci, why)
+			}
+			if state == "running" {
+				close(release)
+				sb.BeforeRead = nil
+			}
+			// the cancelled response must be gone before the next request starts
+			gone := false
+			for try := 0; try < 200 && !gone; try++ {
+				if ok, _ := w.Q.Sustained(20 * time.Millisecond); ok {
+					_, still := B.Impl.PeerState(R.ID).IncomingState.RequestStates[id1]
+					gone = !still
+				}
+			}
+			if !gone {
+				rep.Inconclusive("case %d after-cancel: the cancelled response is still listed", ci)
+				break
+			}
+			if r.Intn(2) == 0 {
+				useReuse, reuseID = true, id1
+			}
+			if _, seen := ViewOf(R, B.ID, id1).Terminal, ViewOf(R, B.ID, id1).HasTerm; seen && useReuse {
+				useReuse = false // the first response already ended by itself: the view of a re-used id would mix two responses
+			}
+			prior := len(ViewOf(R, B.ID, id1).Entries)
+			if useReuse && prior > 0 {
+				useReuse = false // keep the two responses' views apart: use a fresh id when request 1 already produced output
+			}
+			runOne(ext2, nil, true, fmt.Sprintf("request-2 (same scope, after request-1 was cancelled by its requestor while %s [reported state %s, %d loads done], id re-used=%v)", state, st1, k, useReuse))
+			rep.Count("after_cancel_cases", 1)
+			rep.SetAdd("after_cancel_states", state+"/"+st1)
 		case "overlap":
 			// hold request 1 at its k-th store read, run request 2 to completion, release request 1
 			nReads := 0
